@@ -69,7 +69,7 @@ func (vc *VC) checkAnchorsBound(fr *frame) {
 		have[l] = true
 	}
 	for _, cl := range fr.contract.Asserts {
-		if !have[cl.Label] {
+		if !have[strings.TrimPrefix(cl.Label, "post:")] {
 			st := &State{pc: vc.P.True(), cells: map[cellKey]Val{}, heap: map[string]*Term{}}
 			var avail []string
 			for l := range have {
@@ -84,9 +84,20 @@ func (vc *VC) checkAnchorsBound(fr *frame) {
 	}
 }
 
+// anchorPost assumes the callback invariants of a call after it (see cbinv@ in contract.go).
+func (vc *VC) anchorPost(fr *frame, st *State, label string) {
+	for _, cl := range fr.contract.Asserts {
+		if cl.Label != "post:"+label {
+			continue
+		}
+		vc.assume(st, vc.evalClause(fr, st, cl, nil))
+		vc.note("callback invariant assumed after %s (each invocation of the callback preserves it by the callback's own contract): %s", cl.Label, cl.Text)
+	}
+}
+
 func (vc *VC) anchorAsserts(fr *frame, st *State, label string, extra map[string]EV, pos token.Pos) {
 	for _, cl := range fr.contract.Asserts {
-		if cl.Label != label {
+		if cl.Label != label && cl.Label != "post:"+label {
 			continue
 		}
 		g := vc.evalClause(fr, st, cl, extra)
